@@ -206,7 +206,7 @@ def run_tlc(work, module, cfg, env=None, workers=1, timeout=1800, simulate=None,
     md = tempfile.mkdtemp(prefix="md-", dir=work.dir)
     e = dict(os.environ)
     e.update(env or {})
-    e["JAVA_TOOL_OPTIONS"] = e.get("JAVA_TOOL_OPTIONS", "") + " -Xss512m"
+    e["JAVA_TOOL_OPTIONS"] = e.get("JAVA_TOOL_OPTIONS", "") + " -Xss512m -Xmx%s" % ("3g" if workers == 1 else "24g")
     cmd = ["timeout", str(timeout), "tlc", "-workers", str(workers), "-metadir", md, "-cleanup",
            "-noGenerateSpecTE", "-config", os.path.join(SPEC, cfg)]
     if simulate:
@@ -234,8 +234,10 @@ def run_tlc(work, module, cfg, env=None, workers=1, timeout=1800, simulate=None,
         raise ToolError("TLC timeout (%s/%s) after %ds" % (module, cfg, timeout))
     if not finished or "Error:" in out:
         # TLC evaluation errors are tool errors, never verdicts
-        tail = "\n".join(l for l in out.split("\n") if not l.startswith('<<"VERDICT"'))[-3000:]
-        raise ToolError("TLC did not complete (%s/%s):\n%s" % (module, cfg, tail))
+        tail = "\n".join(l for l in out.split("\n") if not l.startswith('<<"VERDICT"')
+                         and not l.startswith(("Linting", "Semantic", "Parsing")))[-2500:]
+        raise ToolError("TLC did not complete (%s/%s, rc=%s):\n%s\n--- stderr:\n%s" % (
+            module, cfg, r.returncode, tail, (r.stderr or "")[-1500:]))
     return res
 
 
